@@ -77,6 +77,7 @@ impl Dump {
     /// `include_hidden`: also dump compiler-generated helper tables.
     pub fn take(eg: &EGraph, include_hidden: bool) -> Dump {
         let mut tables = vec![];
+        let mut anon_lets = 0usize;
         let funcs: Vec<(String, egglog::Function)> = eg
             .functions_iter()
             .map(|(n, f)| (n.clone(), f.clone()))
@@ -114,8 +115,17 @@ impl Dump {
                     subsumed,
                 })
                 .collect();
+            // machine-generated global names (`@v93`: top-level expressions under the term encoding)
+            // carry the fresh-symbol counter, which is not an observable of the database: number
+            // them by order of declaration instead
+            let shown = if f.is_let_binding() && name.starts_with('@') {
+                anon_lets += 1;
+                format!("@let{anon_lets}")
+            } else {
+                f.term_constructor().map(|s| s.to_string()).unwrap_or(name.clone())
+            };
             tables.push(Table {
-                name: f.term_constructor().map(|s| s.to_string()).unwrap_or(name.clone()),
+                name: shown,
                 is_constructor,
                 is_let: f.is_let_binding(),
                 in_sorts: ft.input.iter().map(|s| s.name().to_string()).collect(),
